@@ -496,41 +496,41 @@ HOOK_COMMITS = ["638413c"]
 
 TV = "trace validation against an executable TLA+ specification (TLC)"
 META = {
-    "C06": {"technique": TV + " of Fq/Fr operations in every operator form on TLC-generated Montgomery-boundary operand pools",
+    "C06": {"technique": "TLC trace validation of Fq/Fr operations on TLC-generated Montgomery-boundary, V-boundary and quotient-pattern operand families; exhaustive TLC model check of the transcribed limb arithmetic (ImplMont/ImplMontDiv); TLAPS proof of the word-level case analysis for every modulus",
             "text": "Every recorded Fq/Fr operation (all six operator forms, neg, inverse, pow, is_zero, is_even, ==) is recomputed by TLC from the logged canonical encodings with the Level-A field specification (integers mod q / r) and must match byte for byte; operands come from a TLC-generated pool of values whose Montgomery limbs sit on carry boundaries, designated pairs summing to p and 2^256 in the Montgomery domain, and random values. Sampling at 256 bits, exhaustive only in the scaled-down Level-B model."},
-    "C01": {"technique": TV + " of all three pairing entry points: bilinearity via discrete logarithms, additivity relations, identities in every form; plus stateful register-machine programs",
+    "C01": {"technique": "TLC trace validation of all three pairing entry points against e(P1,P2)^(ab) (TLA+ textbook pairing), register-machine programs, and TLC-enumerated SymPair transitions replayed on the library",
             "text": "Every recorded pairing (pairing, fast_pairing, G2Prepared::pairing) must equal e(P1,P2)^(ab) computed by TLC from the textbook pairing of the generators, with the operand discrete logarithms a, b themselves verified by textbook scalar multiplication of the abstracted operands; additivity in both arguments, e(cP,dQ) = e(P,Q)^(cd) and g^(r-1) g = 1 are checked between recorded values with the specification's F_q^12 arithmetic; identity arguments in the forms (0,1,0), (x,y,0) from P-P and arbitrary (x,y,0); boundary scalars; register-machine programs interleave pairings with group operations."},
     "C02": {"technique": TV + " against the naive textbook R-ate pairing (Miller function on E(F_q^12), Frobenius lines, plain final exponentiation) evaluated by TLC, 384 bytes",
             "text": "For recorded pairings of aP1, bP2 (a, b non-zero: boundary, pool and random; operands in representations A, J, S) TLC evaluates the full textbook R-ate pairing of the standard on the abstracted operands (no shared formula with the code: polynomial F_q[w]/(w^12+2), affine lines with inversions, unsplit 2811-bit exponent) for one entry point per pair and e(P1,P2)^(ab) for all three, and compares all 384 bytes; the specification itself reproduces the standard's published vector (MC_LevelA)."},
-    "C03": {"technique": TV + " of entry-point agreement over representation pairs, prepared-value reuse, and register-machine histories with prepared values",
+    "C03": {"technique": "TLC trace validation of entry-point agreement over representations + TLC exploration of all interleavings of prepare / prepared pairing / clone / mutations (SymPair) replayed by a breadth-first walk with real histories",
             "text": "For each (P,Q) the three entry points are recorded on several representation pairs (A, J, S, identity forms) and all must equal the same specification value; prepared values are reused for several G1 inputs in two orders and through clone() while the source variable is overwritten; register-machine programs interleave prepare / prepared-pairing / clone with mutations of the source registers and explicit rescalings, the specification's prepared register holding only the value captured at preparation."},
-    "C04": {"technique": TV + " of G1/G2 add/sub/neg on every relation x representation combination, against the affine chord-and-tangent law",
+    "C04": {"technique": "TLC trace validation against the affine group law (TLA+), TLC-enumerated SymGroup transitions replayed on the library, and exhaustive TLC model check of the transcribed Jacobian adder on tiny curves (ImplJacobian)",
             "text": "Recorded G1/G2 additions, subtractions, negations and commutativity/associativity/neutrality triples, with operands in every representation (z=1, library Jacobian, lambda-rescaled through G::new, identity as (0,1,0), as (x,y,0) left by P-P and as arbitrary (x,y,0)) and every relation (independent, equal, opposite, identity on either side, doubled), are abstracted by the specification itself (x/z^2, y/z^3 in TLA+) and compared with the textbook affine law; every result triple must satisfy y^2 = x^3 + b z^6; sampled events also check the logged discrete logarithms by textbook double-and-add."},
-    "C05": {"technique": TV + " of P*k and k*P against affine double-and-add evaluated by TLC",
+    "C05": {"technique": "TLC trace validation of P*k / k*P against affine double-and-add evaluated by TLC; SymGroup mul transitions replayed",
             "text": "Recorded scalar multiplications (both operand orders) with boundary scalars (0, 1, 2, r-1, r-2, (r+-1)/2, 2^i, 2^i-1, long runs, Montgomery-boundary pool, random) on points in every representation including identity forms are recomputed by TLC with affine double-and-add; module laws ((s+t)P, (st)P, 0P, 1P, (r-1)P, (r-1)P+P = O) are checked between recorded results and against the specification."},
-    "C07": {"technique": TV + " of random programs over Fr/Fq/Fq2 registers (stateful register machine in TLA+)",
+    "C07": {"technique": "stateful TLC trace validation of random programs over Fr/Fq/Fq2 registers; TLC fixpoint of all operation sequences on the transcribed limb routines (ImplFieldMachine); TLAPS lemmas (MontArith)",
             "text": "Random programs compose every public producer of a field element (zero, one, from_slice/TryFrom of every length, interpret, from_str, from_hash, Fr::random on constant/all-ones/counter/PRNG streams, every operator, neg, inverse, pow, sqrt, set_bit for indices 0..300, real/imaginary/new) in arbitrary order; after every step the specification, which computes the value from its own abstract registers, requires the encoding to be below the modulus and equal to its value, is_zero to hold exactly for 0 and the logged == row against all live registers to equal value equality; a hang is reported by a watchdog."},
     "C08": {"technique": TV + " of all six point decoders and Fq2::from_slice on malformed inputs, recorded under both build profiles",
             "text": "Every decoder is run on every length 0..140 (three fills), valid encodings offered to every decoder, truncations/extensions, single-bit and single-byte corruptions, prefix bytes, coordinate limbs replaced by limb+q, q and 2^256-1, small x with x+q, random x; TLC decides each input with the acceptance predicate of the specification (length, prefix, limbs below q, on curve, [r]P = O for G2, re-encoding equals input). The same inputs are recorded by the release and the debug-assertion builds of the same driver; the two traces must be identical, contain no panic, and both are validated."},
     "C09": {"technique": "TLC-generated twist points (Tonelli-Shanks, cofactor clearing) replayed into AffineG1/AffineG2::new and the G2 decoders; verdicts validated by TLC",
             "text": "TLC computes with the Level-A specification random points of the twist (order r*h), cofactor-cleared points, points of order 13, 1621 and dividing 13*1621, sums of a subgroup and a small-order point, near misses, points of other curves and on/off-curve pairs for G1; the real constructors and G2 decoders are run on them and TLC checks each verdict against OnCurve and [r]P = O."},
-    "C10": {"technique": TV + " of the three encoders against the SM9 byte formats of the textbook coordinates",
+    "C10": {"technique": "TLC trace validation of the three encoders against the SM9 byte formats of the textbook coordinates; SymGroup codec transitions replayed",
             "text": "For P = k*generator and -P (both parities of y) in representations A, J, S the recorded raw / 0x04 / 0x02-0x03 encodings must equal the specification's encoding of the abstract point (imaginary part first, parity of the real part), decode back to the same point, and anchor events compare the abstract point with the textbook k*P computed by TLC."},
-    "C14": {"technique": TV + " of Fq::sqrt / Fq2::sqrt (soundness by squaring, completeness by the Euler criterion evaluated by TLC)",
+    "C14": {"technique": "TLC trace validation of Fq::sqrt / Fq2::sqrt (soundness by squaring, completeness by the Euler criterion); exhaustive TLC model check of the transcribed algorithms on five small fields (ImplSqrt)",
             "text": "Recorded square roots of 0, 1, -1, -2, small integers and their negatives, squares, negated squares, arbitrary elements, zero-imaginary and purely imaginary Fq2 elements, squares and squares times the non-square u: Some(s) must satisfy s*s = x and None must coincide with the Euler criterion (x^((q^2-1)/2) in Fq2) evaluated by TLC; compressed decoding of x-coordinates of real points must succeed for both prefixes."},
-    "C16": {"technique": "stateful trace validation: TLA+ register machine tracking abstract point and discrete logarithm of every register",
+    "C16": {"technique": "TLC fixpoint of all histories of the transcribed Jacobian register machine on a tiny curve (ImplMachine); TLC-explored SymGroup state graph walked breadth-first with real library histories; stateful TLC trace validation of random register programs",
             "text": "Random programs (small scalar alphabet {0,1,2,r-1} and arbitrary scalars) over 4 G1, 4 G2, 3 Fr, 3 Gt and 2 prepared registers apply add, sub, neg, scalar multiplication in both orders, normalize, affine and encode/decode round trips, copies, pairings through all entry points and Gt arithmetic. The specification computes each new abstract value from its own registers (affine law, dlog arithmetic mod r) and requires the logged Jacobian triple to denote it, the encoding, is_zero and the full == row to be those predicted by the discrete logarithms alone, pairing bytes to equal e(P1,P2)^(k_p k_q), and sampled registers to be indistinguishable (==, encodings) from a freshly computed k*generator."},
-    "C17": {"technique": TV + " of hook-exposed tower operations, final exponentiations and Miller loops against F_q[w]/(w^12+2)",
+    "C17": {"technique": "TLC trace validation of hook-exposed tower operations, final exponentiations and Miller loops against F_q[w]/(w^12+2); both addition chains checked as exponent arithmetic modulo Phi12(q) at the real parameters (ImplFinalExp)",
             "text": "Through the cfg-guarded re-exports, F_q^12 mul/sqr/inverse/Frobenius(1,2,3,6)/mul_015/pow(u128)/scale/mul_by_nonresidue and F_q^4 mul/sqr/inverse/mul_1/frobenius codes on random, sparse, subfield, unitary, zero elements are validated against polynomial arithmetic; final_exponentiation(x) and final_exp(x) must both equal x^((q^12-1)/r) for arbitrary non-zero x (None for 0); the chain constants must be t, 6t+2, 6t^2+1, 6t+5, 9 and the signed digits must expand 6t+2; both Miller loops, final-exponentiated by the specification, must equal the textbook pairing."},
     "C18": {"technique": "dual-profile trace recording (release vs dev with debug-assertions and overflow-checks) + trace validation by TLC",
             "text": "The driver is built twice from the same source; samples of the input classes of every other property (field pools, conversions, malformed decoder inputs, twist points, group/pairing/tower operations, register-machine programs) are recorded under both profiles; the traces must be identical event by event, contain no panic, and the release trace is validated by the trace specification (so identical cannot mean identically wrong)."},
-    "C15": {"technique": TV + " of ==, normalize and affine conversion on every representation pair",
+    "C15": {"technique": "TLC trace validation of ==, normalize and affine conversion on every representation pair; SymGroup observe/normalize/affrt/rescale transitions replayed",
             "text": "Recorded equality tests (with reverse and reflexive), normalisations and affine round trips on operands in every representation and relation (equal point/other representative, opposite, identity forms, rescaled by -1) are compared with equality of the abstract points computed by the specification; normalize must yield z = 1 for non-identity points."},
     "C11": {"technique": TV + " of Gt mul/pow/inverse/one/== against F_q[w]/(w^12+2) evaluated by TLC",
             "text": "Recorded Gt products, powers (boundary and random exponents), inverses, one and equality tests on pairing values, their products, powers and inverses are recomputed by TLC in the polynomial representation of F_q^12; group and exponent laws are checked between recorded values and anchored to the specification; every 32-byte limb must be below q."},
-    "C12": {"technique": TV + " of Fq2 operations against Fq[u]/(u^2+2)",
+    "C12": {"technique": "TLC trace validation of Fq2 operations against Fq[u]/(u^2+2) with TLC-generated carry-class, quotient-pattern and cancellation operand families; exhaustive TLC model check of the transcribed sum_of_products (ImplMontSop)",
             "text": "Every recorded Fq2 operation (all operator forms, neg, parts, new, from_slice, ==, ring laws, and the doubling of (x,y,1) observed through G2 accessors) is recomputed by TLC in Fq[u]/(u^2+2) from the logged encodings; components from the boundary pool, zero components and random values."},
-    "C13": {"technique": TV + " of byte/decimal/hash conversions and set_bit against n mod p",
+    "C13": {"technique": "TLC trace validation of byte/decimal/hash conversions and set_bit against n mod p; exhaustive TLC model check of the transcribed U512::divrem (ImplMontDiv)",
             "text": "from_slice/TryFrom for every length 0..70 and several fills (including multiples of p and r-1 near the top of the range), interpret, from_str on digit and non-digit strings, from_hash, to_big_endian with every buffer length, round trips and set_bit for every index 0..300 are validated event by event by TLC against the integer specification."},
 }
 
